@@ -13,7 +13,9 @@ RULE = ('files with 2-4 dimensions (lengths 1-4), 1-4 data variables over a rand
         'std/var only against the Python oracle) or a length-changing callable (numpy.diff, x[::k], numpy.convolve with an '
         'integer kernel in modes full/same/valid), incl. middle axes and mixed reducer/callable; keyword order random. '
         'the documented dict(func1d=f, **kwargs) form for ~30% of the callables (numpy.convolve with v=, mode= keywords); '
-        'numpy.sum/max/min/mean/prod passed as 1-D functions (scalar results, axis kept; unmasked variables); '
+        'numpy.sum/max/min/mean/prod passed as 1-D functions (scalar results, axis kept; unmasked variables); 10% (50% of the search '
+        'stream) widening cases: int8/int16/int32 data near the dtype maximum under sum / prod (numpy int64), float32 data with 24-bit '
+        'integers under numpy.convolve (numpy float64) — result dtype of every variable compared with numpy\'s, integer values exactly; '
         'Malformed stream (~12%): unknown dimension, method without keepdims, missing method. 12% of the cases go through the IOAPI '
         'wrapper (ioapi_base.from_arrays file with (TSTEP,LAY,ROW,COL) variables; data variables, dimension lengths, VGLVLS/NLAYS '
         'compared; TFLAG left to C10) and 12% through the string forms core/_functions.reduce_dim / convolve_dim on the subset they '
@@ -194,9 +196,72 @@ def _one_string(rng, tier):
     return c
 
 
+NARROW_MAX = {'i1': 127, 'i2': 32767, 'i4': 2147483647}
+
+
+def _one_narrow(rng, tier):
+    """results that are WIDER than the input dtype within one kind: sum/prod of int8/int16/int32 data whose result does not
+    fit the input dtype (numpy gives int64), float32 data under a function that returns float64 (numpy.convolve with an
+    integer/double kernel) with results that float32 cannot hold; the result variable must have numpy's dtype and values"""
+    nd = rng.randint(1, 3)
+    names = sorted(rng.sample(DIMS, nd), key=DIMS.index)
+    mode = rng.choice(['intsum', 'intsum', 'intprod', 'f4conv', 'f4conv'])
+    dims = [[d, rng.choice([2, 2, 3, 4] if mode != 'intprod' else [2, 2, 3])] for d in names]
+    dl = dict(dims)
+    nf = 1 if (mode == 'intprod' or rng.random() < 0.6) else min(2, nd)
+    fdims = rng.sample(names, nf)
+    if mode == 'intsum':
+        funcs = [[d, rng.choice([dict(t='red', name='sum'), dict(t='red', name='sum'), dict(t='callred', name='sum')])] for d in fdims]
+    elif mode == 'intprod':
+        funcs = [[d, dict(t='red', name='prod')] for d in fdims]
+    else:
+        funcs = []
+        for d in fdims:
+            f = dict(t='conv', mode=rng.choice(['full', 'same', 'valid']), ker=rng.choice([[1, 1], [1, 2, 1], [1, -1], [2, 1], [1, 1, 1]]))
+            funcs.append([d, dict(t='dict', inner=f) if rng.random() < 0.3 else f])
+    callred = any(_base(f)['t'] == 'callred' for _, f in funcs)
+    vars_ = []
+    for i in range(rng.randint(1, 3)):
+        k = rng.randint(1, nd)
+        vd = rng.sample(names, k)
+        if rng.random() < 0.6:
+            vd.sort(key=DIMS.index)
+        size = 1
+        for d in vd:
+            size *= dl[d]
+        if mode == 'f4conv':
+            dtype = 'f4'
+            data = [rng.choice([1, -1]) * rng.randint(2 ** 23, 2 ** 24 - 1) for _ in range(size)]
+        elif mode == 'intprod':
+            dtype = rng.choice(['i1', 'i2'])
+            lo, hi = (11, 15) if dtype == 'i1' else (150, 181)
+            data = [rng.choice([1, 1, -1]) * rng.randint(lo, hi) for _ in range(size)]
+        else:
+            dtype = rng.choice(['i1', 'i2', 'i4'])
+            mx = NARROW_MAX[dtype]
+            data = [rng.choice([1, 1, 1, -1]) * rng.randint(mx // 2, mx) for _ in range(size)]
+        mask = None
+        if mode != 'f4conv' and not callred and rng.random() < 0.3:
+            mask = [1 if rng.random() < 0.25 else 0 for _ in range(size)]
+        vars_.append(dict(name='ABCD'[i], dtype=dtype, dims=vd, data=data, den=1, mask=mask))
+    if not any(d in v['dims'] for v in vars_ for d in fdims):
+        vars_[0]['dims'] = list(names)
+        size = 1
+        for d in names:
+            size *= dl[d]
+        vars_[0]['data'] = (vars_[0]['data'] * size)[:size]
+        if vars_[0]['mask'] is not None:
+            vars_[0]['mask'] = (vars_[0]['mask'] * size)[:size]
+    return dict(kind='narrow-' + mode, dims=dims, vars=vars_, funcs=funcs)
+
+
 def gen(rng, n, tier):
     out = []
     for _ in range(n):
+        r = rng.random()
+        if r < (0.5 if tier == 'search' else 0.10):
+            out.append(_one_narrow(rng, tier))
+            continue
         r = rng.random()
         if r < 0.12:
             out.append(_one_ioapi(rng, tier))
@@ -450,13 +515,17 @@ def _same(exp, shape, cells):
     if list(exp.shape) != list(shape):
         return False
     em = np.ma.getmaskarray(exp).ravel().tolist()
-    ed = np.ma.getdata(exp).astype('f8').ravel().tolist()
+    ed = np.ma.getdata(exp).ravel().tolist()
     for m_, e, c in zip(em, ed, cells):
         if m_ != (c is None):
             return False
         if c is None:
             continue
-        x = float(c) if isinstance(c, int) else float.fromhex(c)
+        if isinstance(c, int):
+            if int(c) != int(e) or e != int(e):      # integer results are compared exactly
+                return False
+            continue
+        x = float.fromhex(c)
         if not (x == e or abs(x - e) <= 1e-9 * max(abs(e), abs(x))):
             return False
     return True
@@ -505,11 +574,17 @@ def py_check(case, obs):
                 fs = [fd[v['dims'][k]] for k in axes]
                 commuting = all(f['t'] == 'red' and f['name'] == fs[0]['name'] and f['name'] in COMMUTING for f in fs)
                 oks = []
+                edt = None
                 for perm in itertools.permutations(axes):
                     e = a
                     for k in perm:
                         e = _apply1(e, k, fd[v['dims'][k]])
                     oks.append(_same(e, o['shape'], o['cells']))
+                    edt = edt or np.ma.getdata(e).dtype.str[1:]
+                if case.get('via') != 'convolve_dim' and o['dtype'] != edt:
+                    # the result variable takes the dtype numpy gives the result (convolve_dim stores into a variable of
+                    # the input dtype by construction; its values are exact for the integer kernels generated)
+                    why.append('%s: result dtype %s, numpy gives %s' % (v['name'], o['dtype'], edt))
                 if not (all(oks) if commuting else any(oks)):
                     why.append('%s: values differ from the axis-wise %s along %s' % (
                         v['name'], [_base(f).get('name', _base(f)['t']) for f in fs], [v['dims'][k] for k in axes]))
